@@ -96,7 +96,7 @@ NoteG(S) == /\ bad' = bad \cup S /\ hot' = (S # {})
 Note0(S) == /\ bad' = bad \cup S /\ hot' = hot
             /\ \A x \in S \ bad : TLCSet(3, Append(TLCGet(3), <<l, x>>))
 If(cond, name) == IF cond THEN {} ELSE {name}
-Drift(cond, name) == IF cond THEN TRUE
+Drift(cond, name) == IF cond \/ hot THEN TRUE
                      ELSE /\ TLCSet(2, TLCGet(2) + 1)
                           /\ (IF Len(TLCGet(4)) < 40 THEN TLCSet(4, Append(TLCGet(4), <<l, name>>)) ELSE TRUE)
 
